@@ -17,6 +17,9 @@ claimed = {
  "C11": dict(level="other", text="Bounded symbolic execution of a generated nesting family (every nesting of 11 construct kinds around 5 exit kinds up to depth D, exit condition and failing index symbolic) through compiler+VM and through the tree interpreter, compared with a definitional reference interpreter; host crashes count as violations.",
              note="D = 2 quick / 3 thorough; throws cross at most the generated call slots; caught error object: message only. Trusted: go/ssa, gosym, z3, reference interpreter.",
              technique="bounded symbolic execution (go/ssa) + SMT (z3) vs definitional reference interpreter", design="§2 C11"),
+ "C18": dict(level="other", text="Bounded symbolic execution of the analyzer's member tables against both runtime value libraries: exhaustive over (type kind, member), argument payloads and indices are unconstrained solver variables; the index law is asserted on SMT terms.",
+             note="Subject values: int, float, bool, str (4 concrete strings), range, [int] of 0..2, {?}, {a:int}, ?int. String arguments from {\"\", \"a\", \",\"}; function-typed and var-arg parameters skipped; `repeat` counts above 16 and JSON text are outside (JSON modelled by contract). Trusted: go/ssa, gosym, z3.",
+             technique="bounded symbolic execution (go/ssa) + SMT (z3) over member tables and index law", design="§2 C18"),
  "C05": dict(level="other", text="Bounded symbolic execution of lexer (and parser/analyzer as they are added) with Go run-time panics and step-bound overruns as path outcomes; within the stated bounds no input makes the code panic or fail to make progress.",
              note="Currently: lexer step totality/progress on windows of K runes (quick 3 / thorough 5). Trusted: go/ssa, gosym, z3.",
              technique="bounded symbolic execution (go/ssa) + SMT (z3), panic/bound outcomes", design="§2 C05"),
